@@ -27,16 +27,27 @@ deriving Repr, DecidableEq, Inhabited
 def Options.fields (o : Options) : List (Field × Val) :=
   [(.logger, .b o.logger), (.daemon, .b o.daemon), (.allow, .b o.allow), (.modId, .i o.modId), (.name, .s o.name)]
 
-def honoured (o : Options) (w : Wrote) : List (String × Bool) :=
+/-- the name option: a name the caller gave (non-empty) is the name that arrives, whatever the id; without a name the
+documented default arrives: a name the context registers for the module id (static ids only), else the empty name.
+`o.name = ""` stands for "no name given". -/
+def nameOk (mids : Mids) (o : Options) (got : String) : Bool :=
+  if o.name != "" then got == o.name
+  else if o.modId == 0 then got == ""
+  else
+    match mids.filter (fun p => p.2 == o.modId) with
+    | [] => got == ""
+    | l => l.any (fun p => p.1 == got)
+
+def honoured (mids : Mids) (o : Options) (w : Wrote) : List (String × Bool) :=
   [ ("CONNECT_V2.logger_status", w.v2.logger == o.logger),
     ("CONNECT_V2.daemon_status", w.v2.daemon == o.daemon),
     ("CONNECT_V2.allow_multiple", w.v2.allow == o.allow),
     ("CONNECT_V2.mod_id", w.v2.modId == o.modId),
-    ("CONNECT_V2.name", w.v2.name == o.name),
+    ("CONNECT_V2.name", nameOk mids o w.v2.name),
     ("CONNECT.logger_status", w.v1logger == o.logger),
     ("CONNECT.daemon_status", w.v1daemon == o.daemon) ]
 
-def honouredOk (o : Options) (w : Wrote) : Bool := (honoured o w).all (·.2)
+def honouredOk (mids : Mids) (o : Options) (w : Wrote) : Bool := (honoured mids o w).all (·.2)
 
 /-- what the model's payload says was written -/
 def wroteOf (p : List (Field × Val) × List (Field × Val)) : Option Wrote :=
@@ -44,5 +55,13 @@ def wroteOf (p : List (Field × Val) × List (Field × Val)) : Option Wrote :=
   | [(.logger, .b l), (.daemon, .b d), (.allow, .b a), (.modId, .i i), (.name, .s n)], [(.logger, .b l1), (.daemon, .b d1)] =>
     some ⟨⟨l, d, a, i, n⟩, l1, d1⟩
   | _, _ => none
+
+/-- the frames as written: the name field has gone through `Client.__init__` (`storedName` of the id and name the
+constructor was given - which are the `mod_id` / `name` the binding model delivers) -/
+def initName (mids : Mids) (w : Wrote) : Wrote :=
+  { w with v2 := { w.v2 with name := storedName mids w.v2.modId w.v2.name } }
+
+/-- what the model says an entry point with these actuals writes, in a context with the registered ids `mids` -/
+def wroteBy (mids : Mids) (e : Entry Val) : Option Wrote := ((payload id prog e).bind wroteOf).map (initName mids)
 
 end Pyrtma.ClientEntry
